@@ -1,6 +1,7 @@
 """C10 — template parsing is total; two structural clauses of the fidelity half."""
 from .. import common as K
 from .. import ledger as Lg
+from ..facts import operand_local, const_val
 
 EXPLANATION = ("Decides totality: no unaudited panic edge (assert terminator, panicking std API, diverging call) is "
                "reachable from ProgressStyle::with_template / ProgressStyle::template; the parser's own state machine is "
@@ -30,3 +31,61 @@ def run(ctx, crate):
     # starts from an empty scratch buffer (nothing rendered earlier is emitted a second time in front of it)
     from .c11 import rule_arm_buffer_fresh
     rule_arm_buffer_fresh(ctx, crate)
+    rule_brace_not_dropped(ctx, crate)
+
+
+def rule_brace_not_dropped(ctx, crate, rule="R-BRACE-NOT-DROPPED"):
+    """"an opening brace followed by whitespace stands for itself": in the parser state MaybeOpen the '{' has been
+    consumed but is not in the buffer. On the CFG specialised to state == MaybeOpen, every transition that goes back to
+    Literal without pushing a character must have emitted a literal part that starts with "{" (the backtrack arm);
+    otherwise the brace silently disappears from the rendering."""
+    cfg = crate.config
+    b = K.find_one(ctx, crate, rule, r"style::Template::from_str_with_tab_width")
+    if not b:
+        return
+    states = [i for i, l in enumerate(b.locals) if l["ty"] == "style::State" and l.get("name") == "state"]
+    news = [i for i, l in enumerate(b.locals) if l["ty"].replace(" ", "") == "(style::State,std::option::Option<char>)"]
+    if len(states) != 1 or not news:
+        ctx.lost(rule, cfg, "parser locals `state` / `new` not found")
+        return
+    st = states[0]
+
+    def from_state(pl):
+        # the scrutinee tuple's first component: a copy of `state`
+        l = pl["l"]
+        if l == st:
+            return not pl["p"]
+        for d in b.defs().get(l, ()):
+            if d["kind"] == "assign" and d["rv"]["k"] == "agg" and d["rv"].get("ak") == "tuple" and pl["p"] and isinstance(pl["p"][0], dict) and pl["p"][0].get("f") == 0:
+                o = d["rv"]["ops"][0]
+                src = operand_local(o)
+                while src is not None and src != st:
+                    ds = [x for x in b.defs().get(src, ()) if x["kind"] == "assign" and x["rv"]["k"] == "use"]
+                    src = operand_local(ds[0]["rv"]["op"]) if len(ds) == 1 else None
+                return src == st
+        return False
+    # only the first match (on (state, c)): the second one also inspects new.0
+    first = [x for x in K.discr_switches(b) if K.head_of_type(x[2].get("ty", "")) == "style::State" and from_state(x[2])]
+    if not first:
+        ctx.lost(rule, cfg, "no discriminant test of the parser state found")
+        return
+    tuple_local = first[0][2]["l"]
+    pred = lambda pl: pl["l"] == tuple_local and from_state(pl)
+    R = K.variant_reach(b, crate, "style::State", "MaybeOpen", pred)
+    braces = [c for c in b.calls() if any(const_val(a) == "{" for a in c.args)]
+    n = 0
+    for i, j, s in b.assigns():
+        if i not in R or s["lhs"]["l"] not in news or s["lhs"]["p"] or s["rv"]["k"] != "agg" or s["rv"].get("ak") != "tuple":
+            continue
+        o0, o1 = s["rv"]["ops"]
+        a0 = [d for d in b.defs().get(operand_local(o0), ()) if d["kind"] == "assign" and d["rv"]["k"] == "agg"]
+        a1 = [d for d in b.defs().get(operand_local(o1), ()) if d["kind"] == "assign" and d["rv"]["k"] == "agg"]
+        if len(a0) != 1 or len(a1) != 1:
+            continue
+        if a0[0]["rv"].get("variant") == "Literal" and a1[0]["rv"].get("variant") == "None":
+            n += 1
+            ok = any(b.dominates(c.bb, i) and c.bb in R and c.bb in b.reach([first[0][0]]) for c in braces)
+            ctx.check(ok, rule, "maybe-open-to-literal#%d" % (n - 1), b.name, "%s:%d" % (b.file, s.get("line", 0)),
+                      "leaving the pending-'{' state towards Literal re-emits the brace as literal text",
+                      "with a '{' pending (state MaybeOpen) the parser returns to Literal without emitting the brace: the '{' vanishes from the rendering", cfg)
+    ctx.floor(rule, n, 1, cfg, "MaybeOpen -> (Literal, None) transitions")
